@@ -122,34 +122,6 @@ Proof.
     splits; [reflexivity | cbn; split; [lia|exact Hinc] | constructor; auto | lia | intros _; apply Hlt; lia].
 Qed.
 
-(* ChainedSeqContext3 input / lookahead loop *)
-Lemma match3_ok keep s lim : lim <= length s ->
-  forall covs p acc,
-  exists r, match3 keep s lim p covs acc = Ok r /\
-    match r with
-    | None => True
-    | Some (p', acc') =>
-      exists new, acc' = acc ++ new /\ inc_from p new /\ Forall (fun x => x < p') new /\
-                  p <= p' /\ (p <= lim -> p' <= lim)
-    end.
-Proof.
-  intros Hlim. induction covs as [|c rest IH]; intros p acc; cbn [match3].
-  - eexists; split; [reflexivity|]. exists []. rewrite app_nil_r. cbn. splits; auto.
-  - destruct (lim <=? p + length rest) eqn:El; [eexists; split; [reflexivity|exact I]|].
-    apply Nat.leb_gt in El.
-    destruct (oget_lt s p) as [g Eg]; [lia|]. rewrite Eg. cbn [obind].
-    destruct (set_mem c (g_gid g)); [|eexists; split; [reflexivity|exact I]].
-    destruct (skip_fwd_ok keep s (lim - length rest - S p) (S p)) as (p2 & E & H1 & H2);
-      [destruct (lim - length rest - S p) eqn:En; [auto|right; lia]|].
-    rewrite E. cbn [obind].
-    destruct (IH p2 (acc ++ [p])) as (r & Er & Hr). exists r. split; [exact Er|].
-    destruct r as [[p' acc']|]; [|exact I].
-    destruct Hr as (new & -> & Hinc & Hle & Hpp & Hlt).
-    exists (p :: new). rewrite <- app_assoc. cbn [app].
-    splits; [reflexivity | cbn; split; [lia|]; eapply inc_from_weaken; [|exact Hinc]; lia
-            | constructor; [lia|auto] | lia | intros _; apply Hlt; lia].
-Qed.
-
 (* ligature matcher *)
 Lemma lig_match_ok keep s b : b <= length s ->
   forall comps p mpos spos text, exists r, lig_match keep s b p comps mpos spos text = Ok r.
